@@ -1,4 +1,5 @@
 import MgpuProofs.C06Lanes
+import MgpuModel.C06
 /-! # C06 — vector lanes are independent and obey the EXEC mask
 
 All theorems are generic in the handler `h` (per-lane body `h.f` + mask mode), so they hold for every
@@ -14,7 +15,7 @@ private def exS : VState :=
   { vgpr := fun l r => if r = 0 then 4294967295 - l else if r = 1 then l + 1 else 7
     cin := fun l => l % 2 = 0, mout := fun l => l % 2 = 0, mem := fun _ => 0, log := [] }
 
-private theorem exH_ls : LoadOrStore exH := Or.inl (fun _ _ => rfl)
+private def exH_ls : LoadOrStore exH := Or.inl (fun _ _ => rfl)
 
 /-- **The loop as Go runs it — one lane after the other on one mutable register file / VCC accumulator /
     memory — computes exactly the parallel per-lane map on the ORIGINAL state.** This is what makes the
@@ -179,5 +180,45 @@ theorem perm_mem_needs_disjoint :
   refine ⟨{ vgpr := fun l r => if r = 1 then l + 1 else 0, cin := fun _ => false, mout := fun _ => false,
             mem := fun _ => 0, log := [] },
           fun l => if l = 0 then 1 else if l = 1 then 0 else l, by decide, by decide⟩
+
+/-! ## Regenerated obligations: the Go handlers have the shape the theorems above are about
+
+`Gen.vectorHandlers` is re-extracted from `amd/emu/*.go` and `amd/emu/cdna3/*.go` on every run
+(`translate/lanes.go`). If a handler loses its guard, reads lane `i^1`, leaves the loop early, writes a
+mask result inside the loop, … the record no longer fits; the `#eval` just below then fails the build
+with the handler's name, file:line and the reason, and `all_vector_handlers_fit` fails. -/
+
+open C06Facts in
+#eval show IO Unit from do
+  unless misfits.isEmpty do
+    throw (IO.userError s!"C06: vector handlers that do not fit the lane skeleton: {misfits}")
+
+/-- **Every vector handler of both ALUs — VOP1/2/3a/3b/C, DS, FLAT, and their helpers — is syntactically
+    an instance of the skeleton `vexec`**, except the documented cross-lane instruction
+    `v_readfirstlane_b32`. (326 records at the pinned tree; regenerated, not sampled.) -/
+theorem all_vector_handlers_fit :
+    (Gen.vectorHandlers.filter (fun h => !isException h)).all FitsSkeleton = true := by decide +kernel
+
+example : FitsSkeleton Gen.vh_cdna3_runVADDCU32 = true ∧ Gen.vh_cdna3_runVADDCU32.masks.length = 1 := by decide
+
+/-- the exception list cannot rot: each listed handler exists in the regenerated facts (by name — the
+    list refers to the generated constants) and really does not fit, so nothing is excused needlessly -/
+theorem exceptions_are_cross_lane :
+    crossLaneExceptions.all (fun e =>
+      Gen.vectorHandlers.any (fun h => h.arch == e.arch && h.name == e.name) && !FitsSkeleton e) = true := by
+  decide +kernel
+
+/-- every case of the vector opcode switches calls a method that has a fact record, and every
+    `u.helper(state, …)` inside a handler resolves to one — no handler escapes the obligation -/
+theorem vector_dispatch_covered : dispatchCovered = true ∧ callsResolved = true := by
+  constructor <;> decide +kernel
+
+/-- **Scalar instructions are unaffected by EXEC**: over the regenerated facts, the only scalar handlers
+    that call `state.EXEC()` / `state.SetEXEC` are those of the documented opcodes
+    (`s_*_saveexec_b64`, `s_cbranch_execz/nz`); every other scalar opcode can see EXEC only through an
+    operand field that names it. -/
+theorem scalar_ignores_exec : scalarIgnoresExec = true := by decide +kernel
+
+example : (Gen.dispatch.filter (fun d => d.format == "sop1" && d.op == 32)).length = 2 := by decide +kernel
 
 end C06
